@@ -14,6 +14,7 @@ import (
 	"path/filepath"
 	"strings"
 
+	secp256k1 "gitlab.com/yawning/secp256k1-voi"
 	"gitlab.com/yawning/secp256k1-voi/secec"
 )
 
@@ -215,6 +216,27 @@ func driveNonce(c *ctx) {
 			}
 		}
 		csrand.Reader = saved
+	}
+	// the nonce has a SECRET input: key objects that share one public-key object but hold different private scalars (built through
+	// the verif accessor; not reachable through the public API) must not share r under constant entropy.  A derivation that takes
+	// its key material from the public half only makes them collide.  If the library refuses such an object, nothing is logged.
+	{
+		pub := privFrom(keys[0]).PublicKey()
+		for _, d := range keys[2:6] {
+			for ei, ent := range entropies[:2] {
+				var (
+					r, s *secp256k1.Scalar
+					v    byte
+					err  error
+				)
+				rd := &scriptedReader{data: append(append([]byte{}, ent...), bytes.Repeat([]byte{0xEE}, 64)...), steps: whole}
+				if pn := catch(func() { r, s, v, err = secec.VerifSplitKey(scFrom(d), pub).SignRaw(rd, digests[ei]) }); pn || err != nil {
+					continue
+				}
+				c.E("sig.Raw", "d", h32(d), "digest", hx(digests[ei]), "rng", "reader", "reads", rawJSON(readsToJSON(rd.log)), "entropy", hx(ent),
+					"ok", true, "r", scHexOr(r), "s", scHexOr(s), "v", int(v), "split_key", true)
+			}
+		}
 	}
 	c.sticky = false
 
